@@ -147,13 +147,17 @@ func c15Setup() c15Env {
 	return c15Env{ctx: ctx, k: k, ok: ok, staking: staking}
 }
 
-// c15Block returns a context at an arbitrary block time (seconds in [0, 2^40), any nanoseconds) and height.
+// c15MaxSec: block times and activation times are in years 1970..9999, the range the real protobuf timestamp
+// encoding (ValidatorStatus.Since) accepts.
+const c15MaxSec = int64(253402300800)
+
+// c15Block returns a context at an arbitrary block time (seconds in [0, c15MaxSec), any nanoseconds) and height.
 func c15Block(ctx sdk.Context, label string) (sdk.Context, int64, time.Time, int64) {
 	sec := vs.I64(label + "_sec")
 	nsec := vs.I64(label + "_nsec")
 	h := vs.I64(label + "_height")
 	vs.Assume(sec >= 0)
-	vs.Assume(sec < 1<<40)
+	vs.Assume(sec < c15MaxSec)
 	vs.Assume(nsec >= 0)
 	vs.Assume(nsec < 1000000000)
 	vs.Assume(h >= 1)
@@ -204,7 +208,7 @@ func VerifC15SubmitPrices() {
 	active := vs.Bool("active")
 	actSec := vs.I64("active_since_sec")
 	vs.Assume(actSec >= 0)
-	vs.Assume(actSec < 1<<40)
+	vs.Assume(actSec < c15MaxSec)
 	preStatus := oracletypes.NewValidatorStatus(active, time.Unix(actSec, 0).UTC())
 	e.ok.SetValidatorStatus(e.ctx, val, preStatus)
 
@@ -375,7 +379,7 @@ func VerifC15CalculatePrices() {
 		v.sinceSec = vs.I64("since_sec")
 		sinceNsec := vs.I64("since_nsec")
 		vs.Assume(v.sinceSec >= 0)
-		vs.Assume(v.sinceSec < 1<<40)
+		vs.Assume(v.sinceSec < c15MaxSec)
 		vs.Assume(sinceNsec >= 0)
 		vs.Assume(sinceNsec < 1000000000)
 		v.since = time.Unix(v.sinceSec, sinceNsec).UTC()
